@@ -164,7 +164,12 @@ def chk_mg(c):
     f = rng.randn(n)
     ndl = np.array(nd, dtype=int)
     App = A[ndl][:, ndl].toarray()
-    xs[ndl] = np.linalg.solve(App, f[ndl])
+    if c.get('dirichlet_values') and len(dd):
+        # inhomogeneous Dirichlet data: prescribed values on the Dirichlet dofs, the free part solves A_ff x_f = f_f - A_fd x_d
+        xs[np.asarray(dd, dtype=int)] = rng.randint(-3, 4, size=len(dd)).astype(float)
+        xs[ndl] = np.linalg.solve(App, (f - A @ xs)[ndl])
+    else:
+        xs[ndl] = np.linalg.solve(App, f[ndl])
     # make f consistent on Dirichlet rows so that xs solves the full system
     f = A @ xs
     step = solvers.local_mg_step(hs, A, f, Ps, inds, smoother)
@@ -226,12 +231,19 @@ def chk_twogrid(c):
     rng = np.random.RandomState(c['seed'])
     f = rng.randn(A.shape[0])
     u0 = None if c['u0'] == 'none' else (np.zeros(A.shape[0]) if c['u0'] == 'zeros' else rng.randn(A.shape[0]))
+    if c['u0'] == 'int':            # "any starting vector": an integer array ...
+        u0 = rng.randint(-2, 3, size=A.shape[0])
+    elif c['u0'] == 'list':         # ... or a plain python list of numbers
+        u0 = [int(v) for v in rng.randint(-2, 3, size=A.shape[0])]
+    elif c['u0'] == 'float32':
+        u0 = rng.randn(A.shape[0]).astype(np.float32)
+    u0_before = None if u0 is None else np.array(u0, dtype=float)
     buf = io.StringIO()
     with contextlib.redirect_stdout(buf):
         u = solvers.twogrid(A, f, P, solvers.GaussSeidelSmoother(), u0=u0, tol=1e-9, maxiter=200)
     assert np.linalg.norm(f - A @ u) <= 1e-6 * np.linalg.norm(f), 'two-grid did not converge for an SPD problem'
-    if u0 is not None and c['u0'] == 'random':
-        assert not np.shares_memory(u, u0) or True
+    if u0 is not None:
+        assert np.array_equal(np.array(u0, dtype=float), u0_before), 'twogrid modified the caller\'s starting vector'
 
 
 def chk_iterative(c):
@@ -322,6 +334,18 @@ def generate(tier, rng):
                 if quick and k % 2:
                     continue
                 yield 'mg', {'spec': sp, 'strategy': st, 'smoother': sm, 'seed': k, 'solve': (k % 5 == 0), 'maxiter': 3 if k % 10 == 0 else 400}
+    # unrefined (single-level) spaces and inhomogeneous Dirichlet values: the cycle works on the residual, so prescribed boundary values
+    # of the exact solution stay where they are
+    for k2, b in enumerate(bases):
+        bd = [[0, 0], [0, 1]] if b['dim'] == 1 else [[0, 0], [1, 1]]
+        for hist in ([], (hists1 if b['dim'] == 1 else hists2)[1]):
+            if b['dim'] == 1 and any(int(c_[0]) >= b['n'] * 2 ** int(lv) for st_ in hist for lv, cs in st_.items() for c_ in cs):
+                continue
+            sp = dict(b, history=hist, truncate=bool(k2 % 2), disparity='inf', bdspecs=bd)
+            for st in (strategies[:2] if quick else strategies):
+                for sm in (('gs', 'exact') if quick else smoothers):
+                    k += 1
+                    yield 'mg', {'spec': sp, 'strategy': st, 'smoother': sm, 'seed': k, 'solve': False, 'maxiter': 400, 'dirichlet_values': True}
     # persistent objects: refinement on existing levels next to Dirichlet boundaries after the caches were filled
     ad = [
         {'dim': 1, 'p': 2, 'n': 4, 'history': [{'0': [[0]]}, {'0': [[3]]}, {'1': [[0], [1]]}, {'0': [[1]]}], 'bdspecs': [[0, 0], [0, 1]]},
@@ -336,7 +360,7 @@ def generate(tier, rng):
             for disp in (('inf', 1) if quick else ('inf', 1, 2)):
                 yield 'mg_adaptive', {'spec': dict(sp, truncate=trunc, disparity=disp), 'strategy': strategies[(k + int(trunc)) % 4]}
     for p in (1, 2, 3):
-        for u0 in ('none', 'zeros', 'random'):
+        for u0 in ('none', 'zeros', 'random', 'int', 'list', 'float32'):
             yield 'twogrid', {'p': p, 'n': 8, 'seed': p, 'u0': u0}
 
 
